@@ -30,6 +30,55 @@ def check(tree, rep, tier='quick', seed=0):
     n_defs = n_reads = n_calls = n_paths = 0
     thr_sites = set()
     absent_seen = set()
+    # ---- R10.0 every form of the catalogue can be built: a constructor that fails (an attribute stored on an object whose
+    #      classes all declare __slots__, a name that does not exist) takes every line of the form with it
+    for fr in cat.all_forms():
+        e = fr.abort
+        if e is not None and not e.kind.startswith(('undecided', 'unmodelled')):
+            rep.ob('R10.0', f'{fr.year}/{fr.name}/constructible', False,
+                   f'building form {fr.name} ({fr.year}) fails with {e.kind}: {e.msg} - every reference to one of its lines ends in that error instead of a value', f'{e.rel}:{getattr(e.node, "lineno", 0)}')
+        else:
+            rep.ob('R10.0', f'{fr.year}/{fr.name}/constructible', True)
+    # ---- R10.11 every name a definition can build is taken apart into (form, copy) correctly: the line definitions write
+    #      `w-2:{n}`, `8889:spouse`; form.name_and_instance() (evaluated here by the constructor evaluator, not run) must
+    #      hand back the form of the catalogue and the copy as written, for one-digit and longer copy numbers alike
+    from ..formx import _root_scope
+    from ..interp import InterpAbort, Closure, Unknown
+    ip = cat.interp
+    frel = 'habutax/form.py'
+    nai, found = ip.ns_lookup(ip.module_ns(frel), 'name_and_instance', frel)
+    if not found or not isinstance(nai, Closure):
+        raise AnalysisError('habutax/form.py: name_and_instance is not a module-level function (anchor vanished)')
+    tested = set()
+    import re as _re
+    numbered = set()                      # forms some definition refers to with a computed copy number (`w-2:{n}.box_1`)
+    for d in an.all_defs():
+        for r in d.reads():
+            m = _re.match(r'([^:.{}]+):\{', r.text or '')
+            if m:
+                numbered.add(m.group(1))
+    rep.floor('forms referred to with a computed copy number', len(numbered), 5)
+    for fr in cat.all_forms():
+        fname = fr.form_name
+        insts = fr.class_attrs.get('valid_instances')
+        cases = [(fname, None)] + ([(f'{fname}:{x}', x) for x in insts] if isinstance(insts, list) and insts else
+                                   [(f'{fname}:{k}', str(k)) for k in (0, 7, 10, 13, 99, 100)] if fname in numbered else [])
+        for text, inst in cases:
+            if text in tested:
+                continue
+            tested.add(text)
+            try:
+                got = ip.call_closure(nai, [text], {}, nai.node, _root_scope(ip, frel))
+            except InterpAbort as e:
+                if e.kind.startswith(('undecided', 'unmodelled')):
+                    raise AnalysisError(f'name_and_instance({text!r}) is not evaluable: {e}')
+                got = f'{e.kind}'
+            if isinstance(got, Unknown) or (isinstance(got, tuple) and any(isinstance(x, Unknown) for x in got)):
+                raise AnalysisError(f'name_and_instance({text!r}) is not evaluable: {got!r}')
+            rep.ob('R10.11', f'name_and_instance/{text}', got == (fname, inst),
+                   f'form.name_and_instance({text!r}) gives {got if isinstance(got, tuple) else "an error: " + str(got)[:120]} instead of {(fname, inst)}: a definition that refers to this copy of a form of the catalogue '
+                   'ends in that error (or in another form) instead of a value', f'{frel}:{nai.node.lineno}')
+    rep.floor('form names taken apart by name_and_instance', len(tested), 55)
     for d in an.all_defs():
         n_defs += 1
         n_paths += len(d.paths)
